@@ -96,8 +96,10 @@ class SpartanProtocol(BaseGopherProtocol):
             url = urllib.parse.quote(selector)
             url = url or "/"  # Use "/" for relative links to the root URL
         else:
-            # Link to a different server.  Make it a gopher URL.
-            url = entry.geturl(self.server.server_name, 70)
+            # Link to a different server.  Make it a gopher URL.  An entry without a
+            # port of its own (Port=+) is on this server's port, as the Gopher
+            # menu line says -- not on 70.
+            url = entry.geturl(self.server.server_name, self.server.server_port)
 
         description = entry.getname() or ""
 
